@@ -8,7 +8,7 @@
    invocations on arbitrary containers.  [clean c s]: the table [s] has no address under either handle of
    container [c] (primary "<network>.<containerID>", legacy "<namespace>.<pod>" / "<containerID>"). *)
 From Coq Require Import String List NArith Bool Arith.
-From Verif.C38 Require Import Model Spec Proofs Multi MultiSpec.
+From Verif.C38 Require Import Model Spec Proofs Multi MultiSpec History.
 Import ListNotations.
 
 (* Once the final delete succeeds no address remains allocated to that container's handles: for EVERY history of
@@ -119,6 +119,13 @@ Theorem c38_model_meets_spec : forall w o ks w' r cs,
   ok_step (w_store w) {| s_op := o; s_calls := ks; s_res := r; s_marker := w_marker w'; s_store := w_store w' |} = true.
 Proof. exact model_meets_spec. Qed.
 Print Assumptions c38_model_meets_spec.
+
+(* ... and every whole history: the oracle, folded over the observation sequence exactly as the correspondence run
+   folds it over an implementation trace (ok_steps), accepts every history the model can produce. *)
+Theorem c38_model_meets_spec_history : forall h w l,
+  model_steps w h = Some l -> ok_steps (w_store w) l = true.
+Proof. exact model_steps_ok. Qed.
+Print Assumptions c38_model_meets_spec_history.
 
 (* ---------------------------------------------------------------- below the abstract IPAM (Multi.v)
    The IPAM library's handle bookkeeping, one datastore access at a time, every access may fail (request lost):
